@@ -166,6 +166,26 @@ SPEC = dict(
         dict(name='lemma_basic_rely', harness='lemma_basic_rely', mode='lemma', props=['C19']),
         dict(name='lemma_basic_init', harness='lemma_basic_init', mode='lemma', props=['C19']),
     ],
-    assumptions=[],
-    drops=[],
+    assumptions=[
+        'the operation\'s lock is the default std::recursive_mutex (monitor model: acquiring it from depth 0 lets all other threads run; data protected by it is accessed only under it); a user-supplied lock factory must behave like it',
+        'the user\'s body calls op.set_value/set_error/set_done and safe_callback()/safe_cb_holder() only from inside body(...) (i.e. under the lock); the body is modelled as up to three such calls, nested synchronous callbacks / stop requests having the same effects',
+        'start() is called once, not under the operation\'s own lock; user callbacks exist only after body(start) has been entered; the operation is not destroyed while start() runs or a completion is pending',
+        'the stop callback runs at most once, only while registered; its destructor waits for a run in progress on another thread and is a no-op from inside that run (C03, specs/stop_token)',
+        'UNSAFE callbacks (unsafe_callback / unsafe_errback, and the opaque() pair of the unsafe base): the user guarantees that they are not invoked after, or concurrently with, the sender\'s completion (documented MUST NOT): verified only under that assumption (unit unsafe_callback)',
+        'unit safe_callback_live assumes that nothing completes the operation between weak_.lock() and callback_impl() taking the lock; without that assumption the obligation fails (unit safe_callback_race, tier thorough: genuine defect, native reproducers probes/native/create_basic_safe_callback_*.cpp)',
+        'unit op_start assumes body(start) does not throw (both `if constexpr (nothrow_on_start())` branches are still verified); with a throwing body the obligations fail (unit op_start_body_throws, tier thorough: genuine defect, probes/native/create_basic_start_throw_after_callback_double_completion.cpp)',
+        'the receiver may destroy the operation as soon as receiver_.complete() has been called',
+        'atomics / mutex sequentially consistent',
+    ],
+    drops=['template genericity (Tr, Receiver, Body, CtxFactory, LockFactory, ValueTypes..., Event, Fallback, Args...): one instantiation per use site; every `if constexpr` condition is a symbolic constant, both branches verified',
+           'payload of callbacks and completion signals; std::exception_ptr / std::current_exception()',
+           'receiver_ (the _receiver_wrapper: defer_complete_with / manual_lifetime_union / finalizer_: lambda-valued members) -> EV_defer / EV_receiver_complete; only _receiver_wrapper::complete() is extracted',
+           'stop_ (manual_lifetime<stop callback>) -> EV_stop_construct / EV_stop_destruct; get_stop_token(receiver)',
+           'std::shared_ptr<void*> / std::weak_ptr<void*> -> a static heap cell HC, strong-reference ghosts (holder, my_refs, inflight_env), weak_.lock() -> EV_weak_lock; std::make_shared -> EV_make_shared',
+           'std::lock_guard{state.mutex_} -> VF_RLOCK; the factory selection machinery (_first_valid_factory_result / construct()) is not extracted: the default factory is called with the lockable state',
+           '_state::guard: member initialisers and member destruction order written in the template around the extracted constructor / destructor bodies; `auto guard{lock()}` -> RAII rule',
+           'exceptions: UNIFEX_TRY/CATCH made explicit by spec-level regexes; the exception leaving start_impl() is a ghost flag (VF_THROW / VF_THREW)',
+           '_opaque_safe_cb::callback / _safe_cb_base::from_opaque / _callback::opaque() (C-style context + function pointer pairs): same weak_.lock() + callback_impl() shape as _callback::operator(); not extracted (static member templates with nested if constexpr over Fallback pointer-ness)',
+           'create.hpp (create<>() built on create_raw_sender with _create::_op), make_traits.hpp (compile-time only)',
+           'create_raw_sender: the sender constructor, _fn::operator() (forwarding), traits machinery'],
 )
